@@ -148,46 +148,13 @@ func checkC08(c *Ctx, r *Report) {
 		r.Fail("C08-sticky", "anchor (*lzhuf.bitReader).ReadBits64 not found")
 	} else {
 		w := fnName(fn)
-		rb := callsTo(fn, false, "io.ByteReader.ReadByte")
-		if len(rb) == 0 {
-			for _, ci := range allCalls(fn) {
-				if invokes(ci, "ReadByte") {
-					rb = append(rb, ci)
-				}
-			}
-		}
+		// The byte read may live anywhere in the static call tree of the anchor (helper method, local
+		// closure, method value); the condition is decided where the read is (ip_i3.go).
 		o := r.Add("C08-sticky", w, "failed ReadByte stores the error before returning", c.pos(fn.Pos()))
-		if len(rb) != 1 {
-			o.Bad("expected one ReadByte call in ReadBits64, found %d (unresolved)", len(rb))
+		if ok, text := c.i3StickyRecorded(pkg, fn); ok {
+			o.OK("%s", text)
 		} else {
-			ev := errResult(rb[0].Value())
-			good, n := true, 0
-			for _, ret := range returnsOf(fn) {
-				onErr := false
-				for _, cd := range condsAt(ret.Block()) {
-					if b, ok := cd.V.(*ssa.BinOp); ok && isNilConst(b.Y) && (b.Op == token.NEQ) == cd.Truth && dependsOn(b.X, func(v ssa.Value) bool { return v == ev }) {
-						onErr = true
-					}
-				}
-				if !onErr {
-					continue
-				}
-				n++
-				stored := false
-				eachInstr(fn, func(_ *ssa.BasicBlock, _ int, in ssa.Instruction) {
-					if st, ok := in.(*ssa.Store); ok && strings.HasSuffix(pathOf(st.Addr), ".err") && instrDominates(st, ret) && errEdgeAt(st.Block()) {
-						stored = true
-					}
-				})
-				if !stored {
-					good = false
-				}
-			}
-			if good && n > 0 {
-				o.OK("the error exit(s) of ReadBits64 are dominated by a store to bitReader.err made on the error edge")
-			} else {
-				o.Bad("ReadBits64 can return after a failed ReadByte without recording the error: decoding continues on zero bits and Close reports success")
-			}
+			o.Bad("%s", text)
 		}
 		// result masked to the requested width
 		o = r.Add("C08-sticky", w, "result masked to the requested width", c.pos(fn.Pos()))
